@@ -83,7 +83,7 @@ func conversionObjectToObject(in, out cty.Type, unsafe bool) conversion {
 			if val.IsNull() {
 				// Strip optional attributes out of the embedded type for null
 				// values.
-				val = cty.NullVal(val.Type().WithoutOptionalAttributesDeep())
+				val = cty.NullVal(val.Type().WithoutOptionalAttributesDeep()).WithSameMarks(val)
 			}
 
 			attrVals[name] = val
